@@ -40,3 +40,81 @@ def replay_generic(ctx, path, drv_name, mode, featureset="default"):
     bad = (orc != "ok") or (imp != mod)
     log("replay: " + ("FAILS (property violated or correspondence broken on this case)" if bad else "passes"))
     return 1 if bad else 0
+
+
+def simple_property(ctx, module, drv_name, mode, oracle_kind, corr_kind, rule, nontrivial_key, scope=None,
+                    assumptions=(), featureset="default", leancheck=(), extra_cov=None, classify=None,
+                    exhaustive=False, shrink_prefix=None):
+    """Standard flow: proof leg, harness build, corpus + generated correspondence, classification, evidence.
+    classify(ctx, kind, case_tuple) may return a known-finding entry to downgrade a failure."""
+    frag, problems = proof_leg(ctx, module)
+    ok, out, bindir, _ = cargo_build(featureset, [drv_name])
+    if not ok:
+        ctx.violation({"obligation": "harness does not build against /repo", "log": out[-3000:]}, no_input=True)
+        ctx.evidence(level_of(ctx.prop), dict(frag, explanation="harness build failed"), TRUSTED_COMMON)
+        return None
+    drv = os.path.join(bindir, drv_name)
+    cs = run_corpus_and_gen(ctx, drv, mode, [("gen", ["gen", ctx.tier, str(ctx.seed)])])
+    found_input = False
+    for c in cs:
+        if c.error:
+            ctx.violation({"correspondence": c.name, "error": c.error}, no_input=True)
+            continue
+        fails = list(c.oracle_fail)
+        if classify:
+            rest = []
+            for t in fails:
+                k = classify(ctx, "oracle", t)
+                if k:
+                    ctx.known_finding(k["id"], k.get("what", k["id"]))
+                else:
+                    rest.append(t)
+            fails = rest
+        mism = list(c.mismatch)
+        if classify:
+            rest = []
+            for t in mism:
+                k = classify(ctx, "mismatch", t)
+                if k:
+                    ctx.known_finding(k["id"], k.get("what", k["id"]))
+                else:
+                    rest.append(t)
+            mism = rest
+        if fails:
+            i, op, imp, verdict = min(fails, key=lambda t: (len(t[1]), t[1]))
+            small = op
+            if shrink_prefix is not None:
+                small = shrink_tokens(drv, mode, op, shrink_prefix, lambda i_, m_, o_: o_ != "ok", os.path.join(ctx.rundir, "shrink"))
+            ctx.violation({"kind": oracle_kind, "case": small, "impl": imp, "oracle": verdict, "original_case": op,
+                           "failing_cases_in_run": len(fails), "classes": sorted({t[3][:70] for t in fails})[:10]})
+            found_input = True
+        elif mism:
+            i, op, imp, mod = min(mism, key=lambda t: (len(t[1]), t[1]))
+            ctx.violation({"kind": corr_kind + " no longer checks; the property's oracle is satisfied on all explored inputs",
+                           "case": op, "impl": imp, "model": mod, "mismatches_in_run": len(mism)}, no_input=True)
+    if problems and not found_input:
+        ctx.violation({"obligation": module, "problems": problems}, no_input=True)
+    gen = next((c for c in cs if c.name == "gen"), None)
+    st = gen.stats if gen else {}
+    cov = dict(frag)
+    cov.update({
+        "trusted_base": TRUSTED_COMMON,
+        "evaluations": sum(c.n for c in cs),
+        "distinct_nontrivial": st.get(nontrivial_key, 0),
+        "rule": rule,
+        "traces_validated_against_impl": sum(c.n for c in cs),
+        "samples": st.get("samples", []),
+        "distribution": {k: v for k, v in st.items() if k not in ("samples",)},
+        "mismatches": sum(len(c.mismatch) for c in cs), "oracle_failures": sum(len(c.oracle_fail) for c in cs),
+    })
+    if exhaustive:
+        cov["exhaustive"] = True
+    if scope:
+        cov["exhaustive_scope"] = scope
+    if extra_cov:
+        cov.update(extra_cov)
+    if ctx.thorough() and not problems and leancheck:
+        okc, outc = leanchecker(list(leancheck))
+        cov["leanchecker"] = "ok" if okc else outc
+    ctx.evidence(level_of(ctx.prop), cov, list(assumptions))
+    return cs
